@@ -228,7 +228,7 @@ pub fn render_token(tk: &Value) -> String {
                     "h_word" => " parse.nodes=\"many\" parse.edges=\"-1\" parse.maxindegree=\"99999999999999999999999999\" parse.order=\"\"",
                     _ => "",
                 };
-                format!("<graph edgedefault=\"{}\"{}>", if d == "other" { "sideways" } else { d }, hints)
+                format!("<graph edgedefault=\"{}\"{}>", match d { "other" => "sideways".to_string(), "otheruni" => format!("y{}", "\u{4e2d}".repeat(30)), x => x.to_string() }, hints)
             }
         },
         "/G" => "</graph>".to_string(),
@@ -262,6 +262,7 @@ pub fn render_token(tk: &Value) -> String {
                 "inf" => "-inf".to_string(),
                 "long" => "7".repeat(400),
                 "uni" => "\u{0663}\u{FF15}".to_string(),
+                "longuni" => format!("x{}", "\u{e9}".repeat(40)),
                 _ => "<v>1</v>".to_string(),
             };
             format!("<data{}>{}</data>", key, body)
